@@ -7,6 +7,7 @@ CONSTANTS
   Dev_QuitRefusedWhenBusy = FALSE
   Dev_SocketEventStartsAll = FALSE
   Dev_OpsAfterStop = FALSE
+  Dev_ChildrenRelisted = TRUE
 INIT Init
 NEXT Next
 CONSTRAINT Progress
